@@ -73,6 +73,9 @@ class Check(common.Check):
 
     # ------------------------------------------------------------------ translator tie
     def regen(self):
+        p = common.sh([sys.executable, str(common.VERIF / 'tools' / 'py2lean_selftest.py')], timeout=120)
+        if p.returncode != 0:
+            return 'py2lean self-test failed: ' + (p.stdout + p.stderr)[-600:]
         err, res = py2lean.generate('C15', str(common.REPO))
         if err:
             return err
